@@ -172,6 +172,55 @@ theorem statsCmp_nf {s : CStats} {rows : List Row} (hs : ValidStats s rows) (op 
         | none => simp [cmp3, nf]
         | some m => have := hmax m hm r hr v hv; simp [cmp3, Cmp.holds, nf]; omega
 
+theorem countNulls_pos' {rows : List Row} {c : Nat} {r : Row} (hr : r ∈ rows)
+    (hv : r.iv c = none) : 0 < countNulls rows c := by
+  unfold countNulls
+  apply List.length_pos_of_mem (a := r)
+  simp [List.mem_filter, hr, hv]
+
+theorem hasNulls_nf {s : CStats} {rows : List Row} (hs : ValidStats s rows) {c : Nat} {r : Row}
+    (hr : r ∈ rows) (hv : r.iv c = none) : nf (evalS (hasNulls c) s) := by
+  unfold hasNulls
+  simp only [evalS, STerm.eval]
+  cases hn : (s.ic c).nulls with
+  | none => simp [cmp3, nf]
+  | some n =>
+    have := hs.nulls_ok c n hn
+    have := countNulls_pos' hr hv
+    simp [cmp3, Cmp.holds, nf]
+    omega
+
+theorem eqStats_nf {s : CStats} {rows : List Row} (hs : ValidStats s rows) (c : Nat) {r : Row}
+    (hr : r ∈ rows) {v : Int} (hv : r.iv c = some v) : nf (evalS (eqStats c (some v)) s) := by
+  unfold eqStats
+  simp only [evalS, STerm.eval]
+  apply nf_and3
+  · cases hm : (s.ic c).min with
+    | none => simp [cmp3, nf]
+    | some m => have := hs.min_ok c m hm r hr v hv; simp [cmp3, Cmp.holds, nf]; omega
+  · cases hm : (s.ic c).max with
+    | none => simp [cmp3, nf]
+    | some m => have := hs.max_ok c m hm r hr v hv; simp [cmp3, Cmp.holds, nf]; omega
+
+theorem neStats_nf {s : CStats} {rows : List Row} (hs : ValidStats s rows) (c : Nat) {r : Row}
+    (hr : r ∈ rows) {v y : Int} (hv : r.iv c = some v) (hne : v ≠ y) :
+    nf (evalS (neStats c (some y)) s) := by
+  unfold neStats
+  simp only [evalS, STerm.eval]
+  cases hm : (s.ic c).min with
+  | none => exact nf_or3_left (by simp [cmp3, nf])
+  | some m =>
+    cases hM : (s.ic c).max with
+    | none => exact nf_or3_right (by simp [cmp3, nf])
+    | some M =>
+      have := hs.min_ok c m hm r hr v hv
+      have := hs.max_ok c M hM r hr v hv
+      by_cases hmy : m = y
+      · apply nf_or3_right
+        simp [cmp3, Cmp.holds, nf]; omega
+      · apply nf_or3_left
+        simp [cmp3, Cmp.holds, nf]; omega
+
 theorem cmp3_swap (op : Cmp) (a b : Option Int) : cmp3 op.swap a b = cmp3 op b a := by
   cases a <;> cases b <;> simp only [cmp3]
   cases op <;> simp only [Cmp.swap, Cmp.holds, Option.some.injEq, decide_eq_decide] <;> omega
